@@ -110,11 +110,15 @@ impl AccessStructure {
         encryption_hint: EncryptionHint,
         after: Option<&str>,
     ) -> Result<(), Error> {
+        // The ID of a new attribute must differ from the IDs of all existing
+        // attributes. Since attributes can be removed, their number cannot be
+        // used: use the successor of the greatest existing ID instead.
         let cnt = self
             .dimensions
             .values()
-            .map(Dimension::nb_attributes)
-            .sum::<usize>();
+            .flat_map(|d| d.attributes().map(Attribute::get_id))
+            .max()
+            .map_or(0, |id| id + 1);
 
         self.dimensions
             .get_mut(&attribute.dimension)
